@@ -864,11 +864,28 @@ class exists_elim(Method):
                 raise AssertionError("exists_elim: cannot find intros at the end")
             else:
                 if item.rule == 'intros':
-                    if item.args is None:
-                        item.args = [exists_prop]
-                    else:
-                        item.args = [exists_prop] + item.args
-                    item.prevs = item.prevs[:-1] + new_intros + [item.prevs[-1]]
+                    # The new lines come before the variables and assumptions
+                    # introduced later in the block (which may depend on them),
+                    # so they are also cited before them. The exists facts in
+                    # args are listed in the order in which the macro meets
+                    # them, going backwards through the cited lines.
+                    intros, old_args = item.prevs[:-1], item.args if item.args else []
+                    last_new = id.incr_id(len(vars))
+                    pos = len(intros)
+                    for j, prev in enumerate(intros):
+                        if len(prev.id) == len(id.id) and prev.id[:-1] == id.id[:-1] and \
+                           prev.last() > last_new.last() and j > 0 and \
+                           state.get_proof_item(prev).rule == 'variable':
+                            pos = j - 1
+                            break
+                    n_after = 0
+                    for prev in reversed(intros[pos:]):
+                        prev_th = state.get_proof_item(prev).th
+                        if not prev_th.prop.is_VAR() and n_after < len(old_args) and \
+                           prev_th.prop == old_args[n_after]:
+                            n_after += 1
+                    item.args = old_args[:n_after] + [exists_prop] + old_args[n_after:]
+                    item.prevs = intros[:pos] + new_intros + intros[pos:] + [item.prevs[-1]]
                     break
                 elif item.rule in ('variable', 'assume'):
                     # Variables and assumptions introduced by a later step
